@@ -49,7 +49,7 @@ use cairo_lang_executable_plugin::executable_plugin_suite;
 use cairo_lang_filesystem::cfg::{Cfg, CfgSet};
 use cairo_lang_filesystem::db::{FilesGroup, init_dev_corelib};
 use cairo_lang_filesystem::ids::{CrateInput, FileId};
-use cairo_lang_lowering::LoweringStage;
+use cairo_lang_lowering::{DependencyType, LoweringStage};
 use cairo_lang_lowering::db::LoweringGroup;
 use cairo_lang_lowering::ids::ConcreteFunctionWithBodyId;
 use cairo_lang_lowering::optimizations::config::Optimizations;
@@ -95,6 +95,11 @@ struct Project {
     name: &'static str,
     path: PathBuf,
     kind: Kind,
+    /// per call cycle (SCC of >= 2 functions of the lowering call graph, found in a scratch
+    /// database): its members that are free functions without generic parameters, by full path, in
+    /// declaration order.  The first one is the member that is *pinned*: interned before anything
+    /// else, it becomes the cycle's representative (the minimum intern id) in every run.
+    cycles: Vec<Vec<String>>,
 }
 
 #[derive(Clone, Debug)]
@@ -105,11 +110,22 @@ struct Config {
     prefix: Option<(u64, usize, bool)>,
     /// another project set up in the same database and compiled completely before this one
     other_first: Option<PathBuf>,
+    /// intern the first free member of every call cycle before anything else (neutralises the known
+    /// finding scc-representative-intern-id: the representative is then the same in every run)
+    pin: bool,
+    /// after pinning: per-function queries on the OTHER members of some call cycles, in a seeded
+    /// random permutation (the order in which they are interned)
+    cycle_perm: Option<u64>,
 }
 impl Config {
     fn label(&self) -> String {
         format!(
-            "threads={} first={} prefix={}{}",
+            "{}{}threads={} first={} prefix={}{}",
+            if self.pin { "representatives-pinned " } else { "" },
+            match self.cycle_perm {
+                Some(s) => format!("cycle-members-permuted/seed{s} "),
+                None => String::new(),
+            },
             self.threads,
             if self.warmup { "artifact(warm-up)" } else { "crate(no warm-up)" },
             match self.prefix {
@@ -274,9 +290,11 @@ fn generic_of(name: &str) -> &str {
 /// What may differ inside a function when only the gas withdrawal of its call cycle moved.
 fn gas_or_plumbing(name: &str) -> bool {
     const GAS: [&str; 5] = ["withdraw_gas", "withdraw_gas_all", "redeposit_gas", "get_builtin_costs", "coupon_refund"];
-    const PLUMBING: [&str; 14] = [
+    const PLUMBING: [&str; 15] = [
         "branch_align", "store_temp", "store_local", "alloc_local", "finalize_locals", "drop", "dup", "rename", "jump",
         "disable_ap_tracking", "enable_ap_tracking", "revoke_ap_tracking", "snapshot_take", "return",
+        // the argument of a call that is a specialised call `f{c}()` in the other compile
+        "const_as_immediate",
     ];
     let g = generic_of(name);
     GAS.contains(&g) || PLUMBING.contains(&g)
@@ -351,15 +369,22 @@ fn cyclic_components(views: &[FnView]) -> BTreeMap<usize, usize> {
     comp
 }
 
+/// A call of the const-specialisation `f{c}` counts as a call of `f`.
+fn unspecialised(name: &str) -> String {
+    match (name.find('{'), name.rfind('}')) {
+        (Some(i), Some(j)) if i < j => format!("{}{}", &name[..i], &name[j + 1..]),
+        _ => name.to_string(),
+    }
+}
 fn multiset_diff(a: &[String], b: &[String]) -> Vec<String> {
-    let mut m: BTreeMap<&str, i64> = BTreeMap::new();
+    let mut m: BTreeMap<String, i64> = BTreeMap::new();
     for x in a {
-        *m.entry(x).or_default() += 1;
+        *m.entry(unspecialised(x)).or_default() += 1;
     }
     for x in b {
-        *m.entry(x).or_default() -= 1;
+        *m.entry(unspecialised(x)).or_default() -= 1;
     }
-    m.into_iter().filter(|(_, c)| *c != 0).map(|(k, _)| k.to_string()).collect()
+    m.into_iter().filter(|(_, c)| *c != 0).map(|(k, _)| k).collect()
 }
 
 /// `Ok(description)` when the difference between the two programs is exactly the known finding:
@@ -374,10 +399,22 @@ fn multiset_diff(a: &[String], b: &[String]) -> Vec<String> {
 ///   gained or lost the gas implicits) and has the same number of gas withdrawals.
 /// `Err(reason)` otherwise.
 fn classify_scc(a: &Program, b: &Program) -> Result<String, String> {
-    let (va, vb) = (function_views(a), function_views(b));
+    let (mut va, mut vb) = (function_views(a), function_views(b));
+    let all_a: Vec<(u64, String)> = va.iter().map(|v| (v.id, v.name.clone())).collect();
+    let all_b: Vec<(u64, String)> = vb.iter().map(|v| (v.id, v.name.clone())).collect();
+    // which const-specialisations `f{..}` exist may differ (the decision looks at the body of `f`,
+    // with or without its gas withdrawal): one-sided specialisations are set aside, every other
+    // function must be present on both sides, in the same order
+    let names_a: BTreeSet<String> = va.iter().map(|v| v.name.clone()).collect();
+    let names_b: BTreeSet<String> = vb.iter().map(|v| v.name.clone()).collect();
+    let one_sided = |n: &String, other: &BTreeSet<String>| n.contains('{') && !other.contains(n);
+    va.retain(|v| !one_sided(&v.name, &names_b));
+    vb.retain(|v| !one_sided(&v.name, &names_a));
     let (na, nb): (Vec<&String>, Vec<&String>) = (va.iter().map(|v| &v.name).collect(), vb.iter().map(|v| &v.name).collect());
     if na != nb {
-        return Err(format!("the function lists differ: {:?} vs {:?}", &na[..na.len().min(8)], &nb[..nb.len().min(8)]));
+        let only_a: Vec<&&String> = na.iter().filter(|n| !names_b.contains(**n)).take(4).collect();
+        let only_b: Vec<&&String> = nb.iter().filter(|n| !names_a.contains(**n)).take(4).collect();
+        return Err(format!("the function lists differ (only in one: {:?} / only in the other: {:?}; or the order differs)", only_a, only_b));
     }
     let cyc = cyclic_components(&va);
     let idx: BTreeMap<u64, usize> = va.iter().enumerate().map(|(i, v)| (v.id, i)).collect();
@@ -388,9 +425,11 @@ fn classify_scc(a: &Program, b: &Program) -> Result<String, String> {
         if fa.body == fb.body {
             continue;
         }
-        let ca: BTreeSet<&String> = va.iter().filter(|v| fa.callees.contains(&v.id)).map(|v| &v.name).collect();
-        let cb: BTreeSet<&String> = vb.iter().filter(|v| fb.callees.contains(&v.id)).map(|v| &v.name).collect();
-        let cd: Vec<&&String> = ca.symmetric_difference(&cb).filter(|n| !n.contains("375233589013918064796019")).collect();
+        // callees by name, a const-specialisation counting as its base function (va / vb were
+        // filtered, so the lookup goes through the complete views)
+        let ca: BTreeSet<String> = all_a.iter().filter(|v| fa.callees.contains(&v.0)).map(|v| unspecialised(&v.1)).collect();
+        let cb: BTreeSet<String> = all_b.iter().filter(|v| fb.callees.contains(&v.0)).map(|v| unspecialised(&v.1)).collect();
+        let cd: Vec<&String> = ca.symmetric_difference(&cb).filter(|n| !n.contains("375233589013918064796019")).collect();
         if !cd.is_empty() {
             return Err(format!("function {} calls different functions: {:?}", fa.name, cd));
         }
@@ -576,6 +615,114 @@ fn run_prefix(db: &dyn CloneableDatabase, own: &[CrateInput], seed: u64, n: usiz
         queries.into_par_iter().for_each_with(db.dyn_clone(), |db, q| run_query(db.as_ref(), q));
     } else {
         for q in queries {
+            run_query(db, q);
+        }
+    }
+    log
+}
+
+// ---------------------------------------------------------------------------------------------
+// call cycles of a project: analysis (scratch database), pinning, permuted histories
+// ---------------------------------------------------------------------------------------------
+fn own_free_functions<'db>(db: &'db dyn Database, own: &[CrateInput]) -> Vec<(FreeFunctionId<'db>, String)> {
+    let own_ids = CrateInput::into_crate_ids(db, own.to_vec());
+    let mut v = vec![];
+    for c in own_ids {
+        for m in db.crate_modules(c).iter() {
+            for f in free_functions_of(db, &[*m]) {
+                v.push((f, f.full_path(db)));
+            }
+        }
+    }
+    v
+}
+
+/// The call cycles of the project's lowering call graph, as seen from its free functions.
+fn analyse_cycles(path: &Path, kind: Kind) -> Vec<Vec<String>> {
+    let r = catch(AssertUnwindSafe(|| {
+        let mut db = build_db(kind);
+        let Ok(inputs) = setup_project(&mut db, path) else { return vec![] };
+        let db = &db;
+        let fns = own_free_functions(db, &inputs);
+        let conc: Vec<Option<ConcreteFunctionWithBodyId<'_>>> = fns.iter().map(|(f, _)| ConcreteFunctionWithBodyId::from_no_generics_free(db, *f)).collect();
+        let mut done: BTreeSet<usize> = BTreeSet::new();
+        let mut cycles = vec![];
+        for i in 0..fns.len() {
+            let Some(c) = conc[i] else { continue };
+            if done.contains(&i) {
+                continue;
+            }
+            let mut members: Vec<ConcreteFunctionWithBodyId<'_>> = vec![];
+            for dep in [DependencyType::Cost, DependencyType::Call] {
+                if let Ok(scc) = catch(AssertUnwindSafe(|| db.lowered_scc(c, dep, LoweringStage::Monomorphized))) {
+                    members.extend(scc);
+                }
+            }
+            let mut distinct = members.clone();
+            distinct.sort_by_key(|m| m.full_path(db));
+            distinct.dedup();
+            if distinct.len() < 2 {
+                continue;
+            }
+            let free: Vec<usize> = (0..fns.len()).filter(|j| conc[*j].map(|cj| members.contains(&cj)).unwrap_or(false)).collect();
+            done.extend(free.iter().copied());
+            cycles.push(free.iter().map(|j| fns[*j].1.clone()).collect());
+        }
+        cycles
+    }));
+    r.unwrap_or_default()
+}
+
+fn find_free_function<'db>(fns: &[(FreeFunctionId<'db>, String)], path: &str) -> Option<FreeFunctionId<'db>> {
+    fns.iter().find(|(_, p)| p == path).map(|(f, _)| *f)
+}
+
+/// Interns (only interns: nothing is computed) the concrete id of the first free member of every
+/// call cycle, in the fixed order of the analysis.
+fn pin_representatives(db: &dyn Database, own: &[CrateInput], cycles: &[Vec<String>]) -> usize {
+    let fns = own_free_functions(db, own);
+    let mut n = 0;
+    for c in cycles {
+        if let Some(f) = c.first().and_then(|p| find_free_function(&fns, p)) {
+            if ConcreteFunctionWithBodyId::from_no_generics_free(db, f).is_some() {
+                n += 1;
+            }
+        }
+    }
+    n
+}
+
+/// Per-function queries on the non-pinned free members of some call cycles, in a seeded random
+/// permutation: the order in which the other members of a cycle get their intern ids.
+fn run_cycle_permutation(db: &dyn Database, own: &[CrateInput], cycles: &[Vec<String>], seed: u64) -> Vec<String> {
+    let mut rng = Rng(seed);
+    let fns = own_free_functions(db, own);
+    let mut log = vec![];
+    let mut candidates: Vec<&Vec<String>> = cycles.iter().filter(|c| c.len() >= 3).collect();
+    if candidates.is_empty() {
+        candidates = cycles.iter().filter(|c| c.len() >= 2).collect();
+    }
+    if candidates.is_empty() {
+        return log;
+    }
+    // most of the time every dense cycle, sometimes a single one
+    let chosen: Vec<&Vec<String>> = if rng.below(3) == 0 { vec![*rng.pick(&candidates)] } else { candidates.clone() };
+    for cyc in chosen {
+        let mut rest: Vec<&String> = cyc[1..].iter().collect();
+        for i in (1..rest.len()).rev() {
+            let j = rng.below(i as u64 + 1) as usize;
+            rest.swap(i, j);
+        }
+        // sometimes only a prefix of the permutation
+        let take = if rng.below(3) == 0 { 1 + rng.below(rest.len() as u64) as usize } else { rest.len() };
+        for p in rest.into_iter().take(take) {
+            let Some(f) = find_free_function(&fns, p) else { continue };
+            let q = match rng.below(4) {
+                0 => Query::Sierra(f),
+                1 => Query::Lowered(f, LoweringStage::Monomorphized),
+                _ => Query::Lowered(f, LoweringStage::Final),
+            };
+            log.push(describe(db, &q));
             run_query(db, q);
         }
     }
@@ -856,6 +1003,13 @@ fn compile_once(project: &Project, cfg: &Config) -> Artifacts {
         let _ = catch(AssertUnwindSafe(|| compile_prepared_db_program(db, ids, config).map(|_| ())));
         art.prefix_log.push(format!("compiled {} first ({} bytes of its diagnostics)", cfg.other_first.as_ref().unwrap().display(), other_diag.len()));
     }
+    if cfg.pin {
+        let n = pin_representatives(db, &inputs, &project.cycles);
+        art.prefix_log.push(format!("pinned the first free member of {n} call cycle(s)"));
+    }
+    if let Some(seed) = cfg.cycle_perm {
+        art.prefix_log.extend(run_cycle_permutation(db, &inputs, &project.cycles, seed));
+    }
     if let Some((seed, n, par)) = cfg.prefix {
         art.prefix_log.extend(run_prefix(db, &inputs, seed, n, par));
     }
@@ -885,6 +1039,18 @@ fn compile_once(project: &Project, cfg: &Config) -> Artifacts {
 fn run_config(project: &Project, cfg: &Config) -> Artifacts {
     let pool = rayon::ThreadPoolBuilder::new().num_threads(cfg.threads).build().expect("rayon pool");
     pool.install(|| compile_once(project, cfg))
+}
+
+/// The baseline with the representatives pinned: needed by pinned configurations and by the
+/// confirmation of the known finding.
+fn ensure_pinned_baseline(project: &Project, baseline: &Config, slot: &mut Option<(String, Artifacts)>, compilations: &mut usize) {
+    if slot.is_none() {
+        let c = Config { pin: true, ..baseline.clone() };
+        let a = run_config(project, &c);
+        *compilations += 1;
+        eprintln!("[h12c] {} [{}] {:.1}s", project.name, c.label(), a.seconds);
+        *slot = Some((c.label(), a));
+    }
 }
 
 fn first_diff(a: &str, b: &str) -> String {
@@ -932,7 +1098,7 @@ fn write_diag_project(dir: &Path) {
 
 /// Call cycles of every shape, in several modules (gas enabled: every cycle gets a gas withdrawal).
 fn write_cycles_project(dir: &Path) {
-    let lib = "mod two;\nmod three;\nmod via_trait;\nmod via_generic;\nmod via_loop;\nmod nested;\nmod via_closure;\nmod plain;\n";
+    let lib = "mod two;\nmod three;\nmod via_trait;\nmod via_generic;\nmod via_loop;\nmod nested;\nmod via_closure;\nmod dense;\nmod dense_x;\nmod dense_y;\nmod plain;\n";
     let two = "\
 pub fn pong(n: felt252) -> felt252 {\n    if n == 0 {\n        1\n    } else {\n        ping(n - 1) + 2\n    }\n}\n
 pub fn ping(n: felt252) -> felt252 {\n    if n == 0 {\n        0\n    } else {\n        pong(n - 1) + 1\n    }\n}\n
@@ -947,12 +1113,14 @@ pub fn start_at_c(n: felt252) -> felt252 {\n    c(n) + b(n)\n}\n";
 pub trait Walk<T> {\n    fn walk(self: T, n: u32) -> u32;\n}\n
 #[derive(Copy, Drop)]\npub struct Left {\n    pub w: u32,\n}\n
 #[derive(Copy, Drop)]\npub struct Right {\n    pub w: u32,\n}\n
-pub impl LeftWalk of Walk<Left> {\n    fn walk(self: Left, n: u32) -> u32 {\n        if n == 0 {\n            self.w\n        } else {\n            RightWalk::walk(Right { w: self.w + 1 }, n - 1)\n        }\n    }\n}\n
+pub impl LeftWalk of Walk<Left> {\n    fn walk(self: Left, n: u32) -> u32 {\n        if n == 0 {\n            self.w\n        } else {\n            hop(self.w + 1, n - 1)\n        }\n    }\n}\n
 pub impl RightWalk of Walk<Right> {\n    fn walk(self: Right, n: u32) -> u32 {\n        if n == 0 {\n            self.w\n        } else {\n            LeftWalk::walk(Left { w: self.w + 2 }, n - 1)\n        }\n    }\n}\n
+pub fn hop(w: u32, n: u32) -> u32 {\n    RightWalk::walk(Right { w }, n)\n}\n
 pub fn trait_entry(n: u32) -> u32 {\n    LeftWalk::walk(Left { w: 0 }, n)\n}\n";
     let via_generic = "\
 pub fn gen_a<T, +Drop<T>, +Copy<T>>(x: T, n: u32) -> u32 {\n    if n == 0 {\n        0\n    } else {\n        gen_b(x, n - 1) + 1\n    }\n}\n
-pub fn gen_b<T, +Drop<T>, +Copy<T>>(x: T, n: u32) -> u32 {\n    if n == 0 {\n        1\n    } else {\n        gen_a(x, n - 1) + 2\n    }\n}\n
+pub fn gen_b<T, +Drop<T>, +Copy<T>>(x: T, n: u32) -> u32 {\n    if n == 0 {\n        1\n    } else {\n        gen_a(x, n - 1) + generic_hub(n - 1)\n    }\n}\n
+pub fn generic_hub(n: u32) -> u32 {\n    if n == 0 {\n        2\n    } else {\n        gen_a(5_u8, n - 1) + gen_b(7_felt252, n - 1) + gen_a(true, n - 1)\n    }\n}\n
 pub fn generic_entry(n: u32) -> u32 {\n    gen_a(5_u8, n) + gen_a(7_felt252, n) + gen_b(true, n)\n}\n";
     let via_loop = "\
 pub fn looper(n: u32) -> u32 {\n    let mut i = 0_u32;\n    let mut acc = 0_u32;\n    loop {\n        if i >= n {\n            break;\n        }\n        acc += helper(i);\n        i += 1;\n    }\n    acc\n}\n
@@ -963,9 +1131,46 @@ pub mod y {\n    pub fn fy(n: felt252) -> felt252 {\n        if n == 0 {\n      
     let via_closure = "\
 pub fn with_closure(n: u32) -> u32 {\n    let f = |k: u32| -> u32 {\n        if k == 0 {\n            0\n        } else {\n            with_closure(k - 1) + 1\n        }\n    };\n    f(n)\n}\n";
     let plain = "\
-use crate::{nested, three, two, via_closure, via_generic, via_loop, via_trait};\n
+use crate::{dense, dense_x, dense_y, nested, three, two, via_closure, via_generic, via_loop, via_trait};\n
 pub fn square(x: felt252) -> felt252 {\n    x * x\n}\n
-pub fn main() -> felt252 {\n    let mut r = two::ping(3) + three::start_at_c(4) + nested::x::fx(2) + square(3);\n    if two::even(4) {\n        r += 1;\n    }\n    let s: u32 = via_trait::trait_entry(3) + via_generic::generic_entry(2) + via_loop::looper(3) + via_closure::with_closure(2);\n    r + s.into()\n}\n";
+pub fn main() -> felt252 {\n    let mut r = two::ping(3) + three::start_at_c(4) + nested::x::fx(2) + square(3) + dense::dense_entry(3) + dense_x::x1(2) + dense_y::y2(2);\n    if two::even(4) {\n        r += 1;\n    }\n    let s: u32 = via_trait::trait_entry(3) + via_generic::generic_entry(2) + via_loop::looper(3) + via_closure::with_closure(2);\n    r + s.into()\n}\n";
+    // dense call cycles: the traversal of the cycle has choices
+    let call = |name: &str, callees: &[&str], base: u32| -> String {
+        let sum: Vec<String> = callees.iter().map(|c| format!("{c}(n - 1)")).collect();
+        format!("pub fn {name}(n: felt252) -> felt252 {{\n    if n == 0 {{\n        return {base};\n    }}\n    {}\n}}\n\n", sum.join(" + "))
+    };
+    let mut dense = String::new();
+    // K3: each calls the other two (callees listed in different orders)
+    dense += &call("k3a", &["k3b", "k3c"], 0);
+    dense += &call("k3b", &["k3c", "k3a"], 1);
+    dense += &call("k3c", &["k3b", "k3a"], 2);
+    // K4
+    dense += &call("k4a", &["k4b", "k4c", "k4d"], 0);
+    dense += &call("k4b", &["k4d", "k4a", "k4c"], 1);
+    dense += &call("k4c", &["k4a", "k4d", "k4b"], 2);
+    dense += &call("k4d", &["k4c", "k4b", "k4a"], 3);
+    // a 5-cycle with chords
+    dense += &call("r1", &["r2", "r4"], 0);
+    dense += &call("r2", &["r3"], 1);
+    dense += &call("r3", &["r4", "r1"], 2);
+    dense += &call("r4", &["r5", "r2"], 3);
+    dense += &call("r5", &["r1", "r3"], 4);
+    // two cycles sharing a node (s0)
+    dense += &call("s0", &["s1", "t1"], 0);
+    dense += &call("s1", &["s2"], 1);
+    dense += &call("s2", &["s0"], 2);
+    dense += &call("t1", &["t2"], 3);
+    dense += &call("t2", &["s0", "t1"], 4);
+    dense += "pub fn dense_entry(n: felt252) -> felt252 {\n    k3a(n) + k4a(n) + r1(n) + s0(n)\n}\n";
+    // K3 and a chorded cycle across two modules
+    let mut dense_x = String::from("use super::dense_y::{y1, y2, y3};\n\n");
+    dense_x += &call("x1", &["y1", "x2"], 0);
+    dense_x += &call("x2", &["x1", "y1"], 1);
+    dense_x += &call("x3", &["y2", "y3"], 2);
+    let mut dense_y = String::from("use super::dense_x::{x1, x2, x3};\n\n");
+    dense_y += &call("y1", &["x2", "x1"], 3);
+    dense_y += &call("y2", &["y3", "x3"], 4);
+    dense_y += &call("y3", &["x3", "y2"], 5);
     write_project(
         dir,
         "cycles",
@@ -978,6 +1183,9 @@ pub fn main() -> felt252 {\n    let mut r = two::ping(3) + three::start_at_c(4) 
             ("via_loop.cairo", via_loop.into()),
             ("nested.cairo", nested.into()),
             ("via_closure.cairo", via_closure.into()),
+            ("dense.cairo", dense),
+            ("dense_x.cairo", dense_x),
+            ("dense_y.cairo", dense_y),
             ("plain.cairo", plain.into()),
         ],
     );
@@ -1045,24 +1253,27 @@ fn main() {
     write_execs_project(&execs_dir);
     write_tests_project(&tests_dir);
 
-    let examples = Project { name: "examples", path: format!("{repo}/examples").into(), kind: Kind::Plain };
-    let diagp = Project { name: "diag_project", path: diag_dir.clone(), kind: Kind::Plain };
-    let cycles = Project { name: "cycles_project", path: cycles_dir.clone(), kind: Kind::Plain };
-    let execs = Project { name: "execs_project", path: execs_dir.clone(), kind: Kind::Executable };
-    let testsp = Project { name: "tests_project", path: tests_dir.clone(), kind: Kind::Tests(false) };
-    let hash_chain = Project { name: "hash_chain_gas", path: format!("{repo}/examples/hash_chain_gas.cairo").into(), kind: Kind::Plain };
-    let fib_array = Project { name: "fib_array", path: format!("{repo}/examples/fib_array.cairo").into(), kind: Kind::Plain };
-    let bug_samples = Project { name: "bug_samples", path: format!("{repo}/tests/bug_samples").into(), kind: Kind::Tests(true) };
+    let mk = |name: &'static str, path: PathBuf, kind: Kind| -> Project {
+        let cycles = analyse_cycles(&path, kind);
+        eprintln!("[h12c] {name}: {} call cycle(s) with a free member; sizes {:?}", cycles.len(), cycles.iter().map(|c| c.len()).collect::<Vec<_>>());
+        Project { name, path, kind, cycles }
+    };
+    let examples = mk("examples", format!("{repo}/examples").into(), Kind::Plain);
+    let diagp = Project { name: "diag_project", path: diag_dir.clone(), kind: Kind::Plain, cycles: vec![] };
+    let cycles = mk("cycles_project", cycles_dir.clone(), Kind::Plain);
+    let execs = mk("execs_project", execs_dir.clone(), Kind::Executable);
+    let testsp = mk("tests_project", tests_dir.clone(), Kind::Tests(false));
+    let bug_samples = mk("bug_samples", format!("{repo}/tests/bug_samples").into(), Kind::Tests(true));
     const CONTRACTS: [&str; 4] = [
         "cairo_level_tests::contracts::erc20::erc_20",
         "cairo_level_tests::contracts::mintable::mintable_erc20_ownable",
         "cairo_level_tests::contracts::hello_starknet::hello_starknet",
         "cairo_level_tests::contracts::account::account",
     ];
-    let starknet = Project { name: "starknet_contracts", path: format!("{repo}/crates/cairo-lang-starknet/cairo_level_tests").into(), kind: Kind::Starknet(&CONTRACTS) };
+    let starknet = Project { name: "starknet_contracts", path: format!("{repo}/crates/cairo-lang-starknet/cairo_level_tests").into(), kind: Kind::Starknet(&CONTRACTS), cycles: vec![] };
 
     // ---- the plan: (project, configurations); the first configuration is the baseline ----
-    let baseline = Config { threads: 1, warmup: false, prefix: None, other_first: None };
+    let baseline = Config { threads: 1, warmup: false, prefix: None, other_first: None, pin: false, cycle_perm: None };
     let other_a: PathBuf = format!("{repo}/examples/hash_chain_gas.cairo").into();
     let other_b: PathBuf = diag_dir.clone();
     // the complete matrix: threads x entry order x history kind, `reps` seeds per cell with a history
@@ -1085,7 +1296,7 @@ fn main() {
                         if threads == 1 && !warmup && hist == 0 {
                             continue; // the baseline itself
                         }
-                        v.push(Config { threads, warmup, prefix, other_first });
+                        v.push(Config { threads, warmup, prefix, other_first, pin: false, cycle_perm: None });
                     }
                 }
             }
@@ -1123,26 +1334,44 @@ fn main() {
         v.extend(picked.into_iter().take(n));
         v
     };
+    // configurations with the representatives pinned and the other members of the call cycles
+    // queried in a seeded permutation (1 thread: history alone; then pools, where the warm-up races)
+    let mut pseed = 1000u64;
+    let mut pinned = |n: usize| -> Vec<Config> {
+        let mut v = vec![];
+        for k in 0..n {
+            pseed += 1;
+            let threads = if k < (n + 1) / 2 { 1 } else { [2usize, 4, 16][k % 3] };
+            v.push(Config { threads, warmup: k % 2 == 1, prefix: None, other_first: None, pin: true, cycle_perm: Some(seed0.wrapping_add(pseed)) });
+        }
+        // pools without any history: only the schedule of the warm-up varies
+        for &threads in &[4usize, 16] {
+            v.push(Config { threads, warmup: true, prefix: None, other_first: None, pin: true, cycle_perm: None });
+        }
+        v
+    };
+    let with = |mut a: Vec<Config>, b: Vec<Config>| -> Vec<Config> {
+        a.extend(b);
+        a
+    };
     let plan: Vec<(Project, Vec<Config>)> = if thorough {
         vec![
             (examples, matrix(3, 30, &other_b)),
-            (cycles, matrix(3, 24, &other_a)),
-            (execs, matrix(3, 16, &other_a)),
+            (cycles, with(matrix(2, 24, &other_a), pinned(60))),
+            (execs, with(matrix(3, 16, &other_a), pinned(8))),
             (testsp, matrix(2, 16, &other_a)),
             (diagp, matrix(1, 24, &other_a)),
-            (bug_samples, choose(matrix(1, 30, &other_a), 24, &mut rng)),
-            (hash_chain, choose(matrix(1, 40, &other_b), 12, &mut rng)),
-            (fib_array, choose(matrix(1, 40, &other_b), 12, &mut rng)),
+            (bug_samples, with(choose(matrix(1, 30, &other_a), 20, &mut rng), pinned(6))),
             (starknet, choose(matrix(1, 24, &other_b), 20, &mut rng)),
         ]
     } else {
         vec![
-            (examples, choose(matrix(1, 16, &other_b), 6, &mut rng)),
-            (cycles, choose(matrix(1, 16, &other_a), 8, &mut rng)),
-            (execs, choose(matrix(1, 10, &other_a), 8, &mut rng)),
-            (testsp, choose(matrix(1, 10, &other_a), 6, &mut rng)),
-            (diagp, choose(matrix(1, 10, &other_a), 4, &mut rng)),
-            (bug_samples, choose(matrix(1, 24, &other_a), 4, &mut rng)),
+            (examples, choose(matrix(1, 16, &other_b), 5, &mut rng)),
+            (cycles, with(choose(matrix(1, 16, &other_a), 5, &mut rng), pinned(14))),
+            (execs, with(choose(matrix(1, 10, &other_a), 7, &mut rng), pinned(2))),
+            (testsp, choose(matrix(1, 10, &other_a), 5, &mut rng)),
+            (diagp, choose(matrix(1, 10, &other_a), 3, &mut rng)),
+            (bug_samples, with(choose(matrix(1, 24, &other_a), 3, &mut rng), pinned(1))),
             (starknet, choose(matrix(1, 10, &other_b), 3, &mut rng)),
         ]
     };
@@ -1150,10 +1379,18 @@ fn main() {
     let mut differences: Vec<serde_json::Value> = vec![];
     let mut per_project: Vec<serde_json::Value> = vec![];
     let mut samples: Vec<String> = vec![];
-    let (mut compilations, mut distinct_cfg, mut raw_differs, mut artifacts_compared, mut bytes_compared, mut known_hits) = (0usize, 0usize, 0usize, 0usize, 0usize, 0usize);
+    let (mut compilations, mut distinct_cfg, mut raw_differs, mut artifacts_compared, mut bytes_compared, mut known_hits, mut reruns) = (0usize, 0usize, 0usize, 0usize, 0usize, 0usize, 0usize);
     let mut labels = BTreeSet::new();
+    // names of the items that differ between two runs (None: the sets of artifacts differ)
+    let differing = |x: &Artifacts, y: &Artifacts| -> Option<Vec<usize>> {
+        if x.items.len() != y.items.len() || x.items.iter().zip(y.items.iter()).any(|(a, b)| a.name != b.name) {
+            return None;
+        }
+        Some((0..x.items.len()).filter(|i| x.items[*i].text != y.items[*i].text).collect())
+    };
     for (project, configs) in &plan {
         let mut base: Option<(String, Artifacts)> = None;
+        let mut base_pinned: Option<(String, Artifacts)> = None;
         let mut times = vec![];
         let mut raw_diff_here = 0;
         let mut known_here = 0;
@@ -1166,91 +1403,133 @@ fn main() {
             }
             times.push(format!("{}: {:.1}s", cfg.label(), art.seconds));
             eprintln!("[h12c] {} [{}] {:.1}s", project.name, cfg.label(), art.seconds);
-            match &base {
-                None => {
-                    for a in &art.items {
-                        sizes.insert(a.name.clone(), serde_json::json!({"bytes": a.text.len(), "lines": a.text.lines().count()}));
-                        fs::write(format!("{}/{}.{}.baseline.txt", out, project.name, a.name.replace("::", "__")), &a.text).unwrap();
-                    }
-                    if samples.len() < 6 {
-                        samples.push(format!(
-                            "compile {} under [{}]: artifacts {:?}",
-                            project.name,
-                            cfg.label(),
-                            art.items.iter().map(|a| format!("{}:{}B", a.name, a.text.len())).collect::<Vec<_>>()
-                        ));
-                    }
-                    base = Some((cfg.label(), art));
+            if base.is_none() {
+                for a in &art.items {
+                    sizes.insert(a.name.clone(), serde_json::json!({"bytes": a.text.len(), "lines": a.text.lines().count()}));
+                    fs::write(format!("{}/{}.{}.baseline.txt", out, project.name, a.name.replace("::", "__")), &a.text).unwrap();
                 }
-                Some((blabel, b)) => {
-                    if samples.len() < 10 && !art.prefix_log.is_empty() && project.name != "examples" {
-                        samples.push(format!("compile {} under [{}] after the history {:?}", project.name, cfg.label(), &art.prefix_log[..art.prefix_log.len().min(8)]));
-                    }
-                    if art.sierra_raw != b.sierra_raw {
-                        raw_diff_here += 1;
-                    }
-                    let names_a: Vec<&String> = b.items.iter().map(|a| &a.name).collect();
-                    let names_b: Vec<&String> = art.items.iter().map(|a| &a.name).collect();
-                    if names_a != names_b {
-                        differences.push(serde_json::json!({"project": project.name, "project_path": project.path.to_string_lossy(), "artifact": "set of artifacts", "config_a": blabel, "config_b": cfg.label(),
-                            "first_difference": format!("{:?} vs {:?}", names_a, names_b), "history_b": art.prefix_log, "seed": seed0}));
-                        continue;
-                    }
-                    // classification per group of program-derived artifacts, computed once
-                    let mut verdicts: BTreeMap<&'static str, Result<String, String>> = BTreeMap::new();
-                    for (xa, xb) in b.items.iter().zip(art.items.iter()) {
-                        artifacts_compared += 1;
-                        bytes_compared += xa.text.len();
-                        if xa.text == xb.text {
-                            continue;
-                        }
-                        let known: Option<String> = match xa.group {
-                            None => None,
-                            Some(g) => {
-                                let v = verdicts.entry(g).or_insert_with(|| {
-                                    let (pa, pb) = (b.programs.get(g), art.programs.get(g));
-                                    match (pa, pb) {
-                                        (Some(pa), Some(pb)) if pa.len() == pb.len() && !pa.is_empty() => {
-                                            let mut descr = vec![];
-                                            for (x, y) in pa.iter().zip(pb.iter()) {
-                                                if x.to_string() == y.to_string() {
-                                                    continue;
-                                                }
-                                                match classify_scc(x, y) {
-                                                    Ok(d) => descr.push(d),
-                                                    Err(e) => return Err(e),
-                                                }
-                                            }
-                                            if descr.is_empty() { Err("the programs of the group are identical".into()) } else { Ok(descr.join(" | ")) }
-                                        }
-                                        _ => Err("no programs to classify".into()),
+                if samples.len() < 6 {
+                    samples.push(format!("compile {} under [{}]: artifacts {:?}", project.name, cfg.label(), art.items.iter().map(|a| format!("{}:{}B", a.name, a.text.len())).collect::<Vec<_>>()));
+                }
+                base = Some((cfg.label(), art));
+                if !project.cycles.is_empty() {
+                    ensure_pinned_baseline(project, &baseline, &mut base_pinned, &mut compilations);
+                }
+                continue;
+            }
+            if samples.len() < 12 && !art.prefix_log.is_empty() && project.name != "examples" {
+                samples.push(format!("compile {} under [{}] after the history {:?}", project.name, cfg.label(), &art.prefix_log[..art.prefix_log.len().min(8)]));
+            }
+            // the baseline with the representatives pinned: needed by pinned configurations and by
+            // the confirmation of the known finding
+            if cfg.pin && base_pinned.is_none() {
+                continue; // no call cycle to pin in this project
+            }
+            let (blabel, b) = if cfg.pin { base_pinned.as_ref().unwrap() } else { base.as_ref().unwrap() };
+            let (blabel, b) = (blabel.clone(), b);
+            if !cfg.pin && art.sierra_raw != b.sierra_raw {
+                raw_diff_here += 1;
+            }
+            let Some(diff_idx) = differing(b, &art) else {
+                differences.push(serde_json::json!({"project": project.name, "project_path": project.path.to_string_lossy(), "artifact": "set of artifacts", "config_a": blabel, "config_b": cfg.label(),
+                    "first_difference": format!("{:?} vs {:?}", b.items.iter().map(|a| &a.name).collect::<Vec<_>>(), art.items.iter().map(|a| &a.name).collect::<Vec<_>>()), "history_b": art.prefix_log, "seed": seed0}));
+                continue;
+            };
+            artifacts_compared += b.items.len();
+            bytes_compared += b.items.iter().map(|a| a.text.len()).sum::<usize>();
+            if diff_idx.is_empty() {
+                continue;
+            }
+            // static classification per group of program-derived artifacts (never for pinned runs:
+            // with the representative fixed the known finding cannot be the cause)
+            let mut verdicts: BTreeMap<&'static str, Result<String, String>> = BTreeMap::new();
+            if !cfg.pin {
+                for &i in &diff_idx {
+                    if let Some(g) = b.items[i].group {
+                        verdicts.entry(g).or_insert_with(|| match (b.programs.get(g), art.programs.get(g)) {
+                            (Some(pa), Some(pb)) if pa.len() == pb.len() && !pa.is_empty() => {
+                                let mut descr = vec![];
+                                for (x, y) in pa.iter().zip(pb.iter()) {
+                                    if x.to_string() == y.to_string() {
+                                        continue;
                                     }
-                                });
-                                v.clone().ok()
+                                    match classify_scc(x, y) {
+                                        Ok(d) => descr.push(d),
+                                        Err(e) => return Err(e),
+                                    }
+                                }
+                                if descr.is_empty() { Err("the programs of the group are identical".into()) } else { Ok(descr.join(" | ")) }
                             }
-                        };
-                        let tag = xa.name.replace("::", "__");
-                        let fa = format!("{}/{}.{}.diff-a.txt", out, project.name, tag);
-                        let fb = format!("{}/{}.{}.diff-b.txt", out, project.name, tag);
-                        fs::write(&fa, &xa.text).unwrap();
-                        fs::write(&fb, &xb.text).unwrap();
-                        if known.is_some() {
-                            known_here += 1;
-                        }
-                        differences.push(serde_json::json!({
-                            "project": project.name, "project_path": project.path.to_string_lossy(), "artifact": xa.name,
-                            "config_a": blabel, "config_b": cfg.label(), "first_difference": first_diff(&xa.text, &xb.text),
-                            "file_a": fa, "file_b": fb, "history_b": art.prefix_log, "seed": seed0,
-                            "known_scc_representative": known,
-                            "not_known_because": xa.group.and_then(|g| verdicts.get(g)).and_then(|v| v.clone().err()),
-                        }));
+                            _ => Err("no programs to classify".into()),
+                        });
                     }
                 }
+            }
+            // confirmation: the known finding is the choice of the representative, so it must vanish
+            // when the representative is pinned in both runs; a difference that persists is not it
+            let mut persists: Option<String> = None;
+            if verdicts.values().any(|v| v.is_ok()) {
+                match base_pinned.as_ref() {
+                    None => persists = Some("no call cycle with a free member is known for this project: the representative cannot be pinned".into()),
+                    Some((_, bp)) => {
+                        let c = Config { pin: true, ..cfg.clone() };
+                        let again = run_config(project, &c);
+                        compilations += 1;
+                        reruns += 1;
+                        eprintln!("[h12c] {} [{}] {:.1}s (confirmation)", project.name, c.label(), again.seconds);
+                        match differing(bp, &again) {
+                            Some(d) if d.is_empty() => {}
+                            Some(d) => {
+                                let i = d[0];
+                                persists = Some(format!(
+                                    "persists with the representative of every call cycle pinned in both runs ({} artifact(s), first {}: {})",
+                                    d.len(), bp.items[i].name, first_diff(&bp.items[i].text, &again.items[i].text)));
+                                let tag = bp.items[i].name.replace("::", "__");
+                                fs::write(format!("{}/{}.{}.pinned-diff-a.txt", out, project.name, tag), &bp.items[i].text).unwrap();
+                                fs::write(format!("{}/{}.{}.pinned-diff-b.txt", out, project.name, tag), &again.items[i].text).unwrap();
+                            }
+                            None => persists = Some("the pinned runs return different sets of artifacts".into()),
+                        }
+                    }
+                }
+            }
+            for &i in &diff_idx {
+                let (xa, xb) = (&b.items[i], &art.items[i]);
+                let verdict = xa.group.and_then(|g| verdicts.get(g));
+                let known: Option<String> = match (verdict, &persists) {
+                    (Some(Ok(d)), None) => Some(format!("{d}; confirmed: no difference when the first free member of every call cycle is interned first in both runs")),
+                    _ => None,
+                };
+                let why_not: Option<String> = if cfg.pin {
+                    Some("the representative of every call cycle was pinned in both runs".into())
+                } else {
+                    match (verdict, &persists) {
+                        (Some(Ok(_)), Some(p)) => Some(p.clone()),
+                        (Some(Err(e)), _) => Some(e.clone()),
+                        _ => None,
+                    }
+                };
+                let tag = xa.name.replace("::", "__");
+                let fa = format!("{}/{}.{}.diff-a.txt", out, project.name, tag);
+                let fb = format!("{}/{}.{}.diff-b.txt", out, project.name, tag);
+                fs::write(&fa, &xa.text).unwrap();
+                fs::write(&fb, &xb.text).unwrap();
+                if known.is_some() {
+                    known_here += 1;
+                }
+                differences.push(serde_json::json!({
+                    "project": project.name, "project_path": project.path.to_string_lossy(), "artifact": xa.name,
+                    "config_a": blabel, "config_b": cfg.label(), "first_difference": first_diff(&xa.text, &xb.text),
+                    "file_a": fa, "file_b": fb, "history_b": art.prefix_log, "seed": seed0,
+                    "known_scc_representative": known,
+                    "not_known_because": why_not,
+                }));
             }
         }
         raw_differs += raw_diff_here;
         known_hits += known_here;
         per_project.push(serde_json::json!({"project": project.name, "path": project.path.to_string_lossy(), "configurations": configs.len(),
+            "call_cycles_with_a_free_member": project.cycles,
             "raw_interned_ids_differ_from_baseline_in": raw_diff_here, "artifact_differences_classified_as_known_finding": known_here,
             "baseline_artifacts": sizes, "times": times}));
     }
@@ -1264,6 +1543,7 @@ fn main() {
         "configurations_whose_raw_sierra_ids_differ_from_baseline": raw_differs,
         "differences": differences.len(),
         "differences_known_finding": known_hits,
+        "confirmation_reruns_with_pinned_representatives": reruns,
         "differences_unexplained": unexplained,
         "samples": samples,
     });
